@@ -46,7 +46,10 @@ def run(ctx: Ctx, rep: Report) -> None:
     spec_paralleldo(ctx, rep)
     foreach(ctx, rep)
     sub_do_work(ctx, rep)
-    pdata = ctx.cls('bqskit/compiler/passdata.py:PassData')
+    from ..rules.paramflow import rule_paramflow
+    rule_paramflow(
+        ctx, rep, 'bqskit/passes/control/foreach.py:ForEachBlockPass.run', {})
+    pdata =ctx.cls('bqskit/compiler/passdata.py:PassData')
     n = fields.rule_become(ctx, rep, pdata)
     n += fields.rule_copy(ctx, rep, pdata)
     rep.floor('FIELDS', n, 8, 'PassData field obligations')
